@@ -444,6 +444,10 @@ impl Property for C12 {
                     kinds.push(k);
                     ctx.count(&format!("mutator/{k}"));
                 }
+                if rng.chance(1, 16) {
+                    src = format!("{}{}", *rng.pick(&["\u{feff}", "\u{200b}", "\r\n", "\u{2028}"]), src);
+                    ctx.count("feature/invisible-prefix");
+                }
                 self.judge(ctx, &src, "token-mutation", &format!("mutated:{}", kinds[0]));
                 ctx.nontrivial(fnv64(src.as_bytes()));
                 if idx % 4999 == 0 {
